@@ -166,6 +166,15 @@ def pairs(tier):
             ("readings", q("forall", "<assgn>", "o", om, "start", (conn, inner_q, oat)), (conn, inner_q, q("forall", "<assgn>", "o", om, "start", oat))))
         add("combination", f"free-xpath-{conn}-noname-{kind}-xpath-same-type", A, f"{osug} {conn} ({kind} <assgn>: {isug})",
             ("readings", q("forall", "<assgn>", "o", om, "start", (conn, oat, inner_q)), (conn, q("forall", "<assgn>", "o", om, "start", oat), inner_q)))
+    # explicit names that look like the names ISLa generates for free nonterminals
+    len1 = lambda v: ("smt", ["=", ["str.len", ["v", v]], ["i", 1]])
+    add("name-collision", "named-like-free", A, 'forall <var> var: (= var <var>)', q("forall", "<var>", "f", None, "start", q("forall", "<var>", "var", None, "start", eqv("var", "f"))))
+    for nm in ("var", "var_0"):
+        both = ("and", q("forall", "<var>", "p", None, "start", len1("p")), q("forall", "<var>", "r", None, "start", eqv("r", "f")))
+        add("name-collision", f"same-name-twice-then-free/{nm}", A, f'(forall <var> {nm}: str.len({nm}) = 1) and (forall <var> {nm}: (= {nm} <var>))',
+            ("readings", q("forall", "<var>", "f", None, "start", both), ("and", both[1], q("forall", "<var>", "f", None, "start", both[2]))))
+        add("name-collision", f"free-then-named/{nm}", A, f'(<var> = "x" or <var> = "y") and (exists <var> {nm}: {nm} = "y")',
+            q("forall", "<var>", "f", None, "start", ("and", ("or", eq("f", "x"), eq("f", "y")), q("exists", "<var>", "n", None, "start", eq("n", "y")))))
     # the revised grammars: every alternative of the revised rule takes part in the translation
     A2 = "assgn2"
     m2 = lambda lhs, rhs: (mx(lhs, " := ", rhs), mx(lhs, " += ", rhs))
